@@ -250,6 +250,7 @@ func TestC06(t *testing.T) {
 		rec.Note("small universe: %d of %d models (stride %d) under all DFS start orders (%d ordered builds)", n, total, stride, orders)
 	}
 	rapid.Check(t, func(rt *rapid.T) {
+		noiseCall(rt) // one case in three is preceded by an unrelated, mostly failing call (see noise_test.go)
 		m := gen.GraphModel(rt, gen.GraphOpts{MultiThis: true, DupRestr: true, Interlock: true, Names: true, Deep: true, Depth3: true, SingleChild: true, NoRestr: true, Scale: true, SparseMeta: true, Hazards: rapid.IntRange(0, 7).Draw(rt, "hz") == 0, CycleBoost: rapid.IntRange(0, 4).Draw(rt, "cb") == 0})
 		in := c06Input{Model: m}
 		g0 := ref.Build(m)
@@ -276,7 +277,7 @@ func TestC06(t *testing.T) {
 			in.Permuted = pm
 		}
 		if rapid.IntRange(0, 2).Draw(rt, "history") == 0 {
-			in.Prior = gen.GraphModel(rt, gen.GraphOpts{MultiThis: true, SmallModels: true})
+			in.Prior = gen.GraphModel(rt, gen.GraphOpts{MultiThis: true, SmallModels: true, Hazards: true, CycleBoost: true})
 		}
 		conc := rapid.IntRange(0, 3).Draw(rt, "conc") == 0
 		msg, known, res := c06Check(in, conc)
